@@ -54,6 +54,12 @@ class EnumStrMix(str, enum.Enum):        # the pre-3.11 spelling of a string enu
     BLUE = 'blue'
 
 
+class EnumSwap(enum.Enum):
+    # every value is spelled like the NAME of the other member (a lookup by name must not take precedence)
+    LEFT = 'RIGHT'
+    RIGHT = 'LEFT'
+
+
 class EnumNum(enum.Enum):
     """int- and float-valued members side by side: 1.0 is neither of them."""
     B = 2.5      # (the float-valued member first: the int 1 must still find A)
@@ -63,6 +69,26 @@ class EnumNum(enum.Enum):
 class EnumIntMix(enum.IntEnum):
     LO = 1
     HI = 2
+
+
+class NestedRender:
+    """A value whose str() itself renders a pane error (rendering must be re-entrant)."""
+    def __repr__(self):
+        return 'NestedRender()'
+
+    def __str__(self):
+        import pane
+        try:
+            pane.from_data({'deep': ['x']}, t.Dict[str, t.List[int]])
+        except pane.errors.ConvertError as e:
+            return 'inner<' + str(e) + '>'
+        return 'inner<?>'
+
+    def __eq__(self, other):
+        return type(other) is NestedRender
+
+    def __hash__(self):
+        return 7
 
 
 class SubStr(str):
@@ -235,8 +261,10 @@ LEAF_TYPES: t.Dict[str, t.Callable[[], t.List[t.Any]]] = {
     'path': lambda: [pathlib.Path], 'pathlike': lambda: [os.PathLike],
     'any': lambda: [t.Any, t.Any, TV_FREE],
     'enum_int': lambda: [EnumInt], 'enum_str': lambda: [EnumStr], 'enum_mixed': lambda: [EnumMixed],
-    'enum_strmix': lambda: [EnumStrMix], 'enum_intmix': lambda: [EnumIntMix], 'enum_num': lambda: [EnumNum],
+    'enum_strmix': lambda: [EnumStrMix], 'enum_intmix': lambda: [EnumIntMix], 'enum_num': lambda: [EnumNum], 'enum_swap': lambda: [EnumSwap],
     'lit_str': lambda: [t.Literal['a', 'b']], 'lit_mixed': lambda: [t.Literal[1, 'a', None]],
+    # more than eight alternatives (a converter may switch to a table there), with 0 and False both present
+    'lit_long': lambda: [t.Literal[0, False, 1, 2, 3, 4, 5, 'a', 'b', None]],
     'sub_str': lambda: [SubStr], 'sub_int': lambda: [SubInt], 'sub_float': lambda: [SubFloat],
     'sub_list': lambda: [SubList], 'sub_dict': lambda: [SubDict],
     # bare (unparameterised) containers
@@ -267,7 +295,10 @@ DC_SPECS['dc_tuptag'] = dict(name='DcTuptag', opts={'in_format': ['tuple', 'stru
                              fields=[_f('n', 'int'), _f('u', 'tag_ext'), _f('w', 'tag_adj')])
 # containers of typed values as constructor arguments: a list of dataclass instances, a mapping of sets
 DC_SPECS['dc_listdc'] = dict(name='DcListdc', opts={}, fields=[_f('items', ['list', 'dc_struct']), _f('groups', ['dict', 'str', ['set', 'int']], ['factory', 'dict'])])
-for _k in ('dc_v1', 'dc_v2', 'dc_i1', 'dc_i2', 'dc_tuptag', 'dc_listdc'):
+# a default its own field type does not accept (stored as it is when the field is absent; refused when it is GIVEN)
+DC_SPECS['dc_baddef'] = dict(name='DcBaddef', opts={'in_format': ['struct', 'tuple']},
+                             fields=[_f('a', 'int', ['value', 'None']), _f('b', 'int', ['value', '0']), _f('c', 'bool', ['value', 'False'])])
+for _k in ('dc_v1', 'dc_v2', 'dc_i1', 'dc_i2', 'dc_tuptag', 'dc_listdc', 'dc_baddef'):
     LEAF_TYPES[_k] = (lambda k=_k: [dc_class(k)])
 # tagged unions over them: (layout, {tag: variant leaf})
 TAGGED = {'tag_int': ('internal', {'v1': 'dc_v1', 'v2': 'dc_v2'}), 'tag_ext': ('external', {'v1': 'dc_v1', 'v2': 'dc_v2'}),
@@ -383,7 +414,7 @@ EXT_MEMBERS = {
 }
 # leaves whose images are hashable (usable as set elements / dict keys)
 HASHABLE_LEAVES = ['int', 'float', 'complex', 'str', 'bytes', 'bool', 'none', 'decimal', 'fraction', 'date', 'time',
-                   'datetime', 'pattern', 'purepath', 'enum_int', 'enum_str', 'enum_mixed', 'enum_strmix', 'enum_intmix', 'enum_num', 'lit_str', 'lit_mixed',
+                   'datetime', 'pattern', 'purepath', 'enum_int', 'enum_str', 'enum_mixed', 'enum_strmix', 'enum_intmix', 'enum_num', 'enum_swap', 'lit_str', 'lit_mixed', 'lit_long',
                    'sub_str', 'sub_int', 'empty_tuple']
 # reduced leaf set for the second position of binary constructors and for depth 3
 CORE_LEAVES = ['int', 'float', 'str', 'bool', 'none', 'bytes', 'decimal', 'any']
@@ -705,7 +736,8 @@ def expressions(tier: str) -> t.List[t.Any]:
             for e in (['list', u], ['tuplevar', u], ['dict', 'str', u], ['deque', u], ['tuple', u, 'int'], ['struct', ['k', u]],
                       ['optional', u], ['list', ['list', u]]):
                 add(e)
-    for e in ('dc_tuptag', ['list', 'dc_tuptag'], ['optional', 'dc_tuptag'], 'dc_listdc', ['list', 'dc_listdc'], ['dict', 'str', 'dc_listdc']):
+    for e in ('dc_tuptag', ['list', 'dc_tuptag'], ['optional', 'dc_tuptag'], 'dc_listdc', ['list', 'dc_listdc'], ['dict', 'str', 'dc_listdc'],
+              'dc_baddef', ['list', 'dc_baddef'], ['dict', 'str', 'dc_baddef'], ['union', 'dc_baddef', 'str']):
         add(e)
     for e in (['set', 'dc_hidden'], ['frozenset', 'dc_hidden'], ['dict', 'dc_hidden', 'int'], ['list', ['set', 'dc_hidden']]):
         add(e)
